@@ -168,6 +168,68 @@ func (w *World) WireCheck(opt WireOptions) []WireFinding {
 		}
 	}
 
+	// ---- C05(c): the truncated packet number decodes to the true one given what the sender knows to be acknowledged
+	// (RFC 9000 17.1: the encoding must cover more than twice the distance to the largest acknowledged packet). Checked
+	// for Handshake and 1-RTT packets; the length of Initial packet numbers may be pinned by a spec (its own duty).
+	{
+		type ackSeen struct {
+			t       time.Duration
+			largest uint64
+		}
+		for _, dir := range []string{"c2s", "s2c"} {
+			for _, sp := range []string{"handshake", "app"} {
+				// ACKs for dir's packets travel the other way and are known to the sender once delivered intact
+				var known []ackSeen
+				for _, rec := range log {
+					if rec.Dir == dir || rec.Forged || rec.Mutated || len(rec.Dlv) == 0 {
+						continue
+					}
+					pkts, _ := rec.Pkts.([]*Packet)
+					for _, p := range pkts {
+						if space(p.Kind) != sp {
+							continue
+						}
+						for _, f := range p.Frames {
+							if f.Name == refwire.NameAck && len(f.AckRanges) > 0 {
+								known = append(known, ackSeen{rec.Dlv[0], f.AckRanges[0].Largest})
+							}
+						}
+					}
+				}
+				sort.SliceStable(known, func(i, j int) bool { return known[i].t < known[j].t })
+				ki, largestAcked, any := 0, uint64(0), false
+				for _, rec := range log {
+					if rec.Dir != dir || rec.Forged {
+						continue
+					}
+					// strictly earlier deliveries only: an ACK handed over in the same instant may not have been processed yet
+					for ki < len(known) && known[ki].t < rec.T {
+						if !any || known[ki].largest > largestAcked {
+							largestAcked, any = known[ki].largest, true
+						}
+						ki++
+					}
+					pkts, _ := rec.Pkts.([]*Packet)
+					for _, p := range pkts {
+						if space(p.Kind) != sp || p.Kind == "0rtt" || p.PNLen == 0 {
+							continue
+						}
+						unacked := p.PN + 1 // nothing acknowledged yet: distance to "-1"
+						if any {
+							if p.PN <= largestAcked {
+								continue
+							}
+							unacked = p.PN - largestAcked
+						}
+						if p.PNLen < 4 && 2*unacked >= uint64(1)<<(8*uint(p.PNLen)) {
+							add("C05/wire/pn-length-insufficient", "datagram #%d (%s, t=%v): %s packet number %d is sent with a %d-byte encoding although the largest packet number the sender knows to be acknowledged is %d (known=%v): a receiver that has seen nothing since cannot decode it (RFC 9000 17.1 / A.2)", rec.Seq, rec.Dir, rec.T, p.Kind, p.PN, p.PNLen, largestAcked, any)
+						}
+					}
+				}
+			}
+		}
+	}
+
 	// ---- C07(b): an endpoint acknowledges only packet numbers of packets that were delivered to it.
 	type dl struct {
 		t       time.Duration
@@ -466,6 +528,22 @@ func (w *World) flowControlCheck(log []*Record) []WireFinding {
 						out = append(out, WireFinding{"C04/wire/connection-limit-exceeded", fmt.Sprintf("%s datagram #%d (t=%v): total stream data %d exceeds the connection limit %d delivered by then", dirOut, e.rec.Seq, e.rec.T, sum, connLimit)})
 						return out
 					}
+				}
+			}
+		}
+	}
+	// No sender went beyond a limit it had been given. A receiver that nevertheless closes the connection with
+	// FLOW_CONTROL_ERROR enforces less than it advertised (its limits can only be larger than what had reached the sender).
+	for _, rec := range log {
+		if rec.Forged {
+			continue
+		}
+		pkts, _ := rec.Pkts.([]*Packet)
+		for _, p := range pkts {
+			for _, f := range p.Frames {
+				if f.Name == refwire.NameConnectionClose && f.Type == 0x1c && f.ErrorCode == 0x03 {
+					out = append(out, WireFinding{"C04/wire/receiver-rejects-within-limits", fmt.Sprintf("%s datagram #%d (t=%v): CONNECTION_CLOSE with FLOW_CONTROL_ERROR (%q) although the peer's STREAM frames stayed within every stream and connection limit it had been given", rec.Dir, rec.Seq, rec.T, string(f.Reason))})
+					return out
 				}
 			}
 		}
